@@ -397,8 +397,18 @@ func c11SplitArithmetic(c *Ctx, rule string) {
 					if as, ok := y.Init.(*ast.AssignStmt); ok && len(as.Rhs) == 1 {
 						ai.loopStart = as.Rhs[0]
 					}
-					if be, ok := y.Cond.(*ast.BinaryExpr); ok && be.Op == token.LSS {
-						if call, ok := ast.Unparen(be.Y).(*ast.CallExpr); ok {
+					if be, ok := y.Cond.(*ast.BinaryExpr); ok && (be.Op == token.LSS || be.Op == token.LEQ) {
+						bound := ast.Unparen(be.Y)
+						if be.Op == token.LEQ {
+							// i <= len(x)-1 is i < len(x)
+							bound = nil
+							if sub, ok := ast.Unparen(be.Y).(*ast.BinaryExpr); ok && sub.Op == token.SUB {
+								if cv := f.constOf(sub.Y); cv != nil && cv.String() == "1" {
+									bound = ast.Unparen(sub.X)
+								}
+							}
+						}
+						if call, ok := bound.(*ast.CallExpr); ok {
 							if id, ok := call.Fun.(*ast.Ident); ok && id.Name == "len" && len(call.Args) == 1 {
 								if sel, ok := ast.Unparen(call.Args[0]).(*ast.SelectorExpr); ok {
 									if v := fieldVar(f, sel); v != nil && v.Name() == "offsets" {
